@@ -63,9 +63,16 @@ def case_plane_strain_vs_slab(ctx, family):
     ctx.equal("plane_strain_stiffness_equals_condensed_slab_stiffness", K2, Kc, **tol)
 
 
-def case_axisymmetric_energy(ctx):
+def case_axisymmetric_energy(ctx, reloaded=False):
     m = tiny_mesh("quad4axi")
     region = fem.RegionQuad(m)
+    if reloaded:
+        # an axisymmetric field existed on this region BEFORE the mesh was moved (radially) and the region reloaded: fields created
+        # afterwards must see the new radius
+        fem.FieldAxisymmetric(region, dim=2)
+        with ctx.concrete():
+            moved = np.asarray(m.points, dtype=float) + np.array([0.25, 1.5])
+        m.update(points=moved, callback=region.reload)
     field = fem.FieldContainer([fem.FieldAxisymmetric(region, dim=2)])
     x = unknowns(ctx, field)
     install(ctx, field, x)
@@ -76,7 +83,11 @@ def case_axisymmetric_energy(ctx):
         install(ctx, field, xv)
         F = field.extract()[0]
         W = np.asarray(umat.function([F, None])[0])
-        R = np.asarray(field[0].radius)
+        # radius at the quadrature points, computed here from the CURRENT mesh points (not taken from the field)
+        h_ = np.asarray(region.h)
+        Y = np.asarray(region.mesh.points)[:, 1]
+        cells_ = region.mesh.cells
+        R = np.array([[sum(h_[a, q_, 0] * Y[cells_[c, a]] for a in range(cells_.shape[1])) for c in range(cells_.shape[0])] for q_ in range(h_.shape[1])], dtype=object if ctx.sym else float)
         dV = np.asarray(region.dV)
         return (W * (2 * np.pi) * R * dV).sum()
 
@@ -85,7 +96,7 @@ def case_axisymmetric_energy(ctx):
     ctx.equal("nodal_forces_are_derivative_of_energy_over_revolved_volume", r, ctx.jacobian(lambda xv: np.asarray(energy(xv)).reshape(()), x), tol=1e-9, box={"atom:uf": (-1, 1)}, rtol_replay=1e-5)
 
 
-def case_condensed_vs_explicit(ctx, family, kind):
+def case_condensed_vs_explicit(ctx, family, kind, inplace=False):
     m = tiny_mesh(family)
     R = {"quad4": fem.RegionQuad, "quad8": fem.RegionQuadraticQuad, "quad9": fem.RegionBiQuadraticQuad, "hex8": fem.RegionHexahedron, "hex20": fem.RegionQuadraticHexahedron}[family]
     region = R(m)
@@ -102,10 +113,18 @@ def case_condensed_vs_explicit(ctx, family, kind):
     if not ok_dual:
         return
     x = unknowns(ctx, fu)
-    install(ctx, fu, x)
     base = AbstractHyperelastic(ctx, 3)
     bulk = ctx.var("bulk", 1, 50)
-    cond = fem.SolidBodyNearlyIncompressible(base, fu, bulk=bulk)
+    if inplace:
+        # the body is created on the undeformed field; the displacements are then written IN PLACE into the field's value array
+        # (continuation solvers do this): the body must re-evaluate its kinematics and its state
+        fu[0].values = ctx.const_array(np.zeros(fu[0].values.shape))
+        cond = fem.SolidBodyNearlyIncompressible(base, fu, bulk=bulk)
+        cond.assemble.vector(fu)
+        fu[0].values[:] = np.asarray(x, dtype=object if ctx.sym else float).reshape(fu[0].values.shape)
+    else:
+        install(ctx, fu, x)
+        cond = fem.SolidBodyNearlyIncompressible(base, fu, bulk=bulk)
     cond.assemble.vector(fu)
     rc = dense(ctx, cond.assemble.vector(fu)).reshape(-1)  # second call: settled state
     # explicit formulation at (u, p*, J*)
@@ -222,8 +241,10 @@ def cases(tier):
     out = [
         ("plane_strain_vs_slab", case_plane_strain_vs_slab, {"family": "quad4", "max_paths": 8}),
         ("axisymmetric_energy", case_axisymmetric_energy, {}),
+        ("axisymmetric_energy", case_axisymmetric_energy, {"reloaded": True}),
         ("condensed_vs_explicit", case_condensed_vs_explicit, {"family": "quad4", "kind": "PlaneStrain"}),
         ("condensed_vs_explicit", case_condensed_vs_explicit, {"family": "quad8", "kind": "PlaneStrain"}),
+        ("condensed_vs_explicit", case_condensed_vs_explicit, {"family": "quad4", "kind": "PlaneStrain", "inplace": True}),
         ("uniform", case_uniform, {"dim": 2, "max_paths": 8}),
         ("condensed_vs_threefield", case_condensed_vs_threefield, {"family": "quad4", "params": 1}),
     ]
